@@ -4,6 +4,7 @@ import OpusProofs.LaplaceMain
 import OpusProofs.LaplaceP0
 import OpusProofs.CwrsRanges
 import OpusProofs.CeltAllocAgree
+import OpusProofs.CeltHdrPart1
 /-
   Property C17 — "PVQ, Laplace and table-driven symbol codes are exact, prefix-free bijections".
 
@@ -408,5 +409,42 @@ theorem alloc_enc_dec_agree (p : Opus.CeltAlloc.Inp) (hp : OpusProofs.CeltAlloc.
     Opus.CeltAlloc.computeAllocation (OpusProofs.CeltAlloc.decInp p i d pv sb)
       { encode := false, oracle := o.ops.map OpusProofs.CeltAlloc.opVal ++ rest, ops := [] } = .ok o :=
   OpusProofs.CeltAlloc.alloc_agree p hp orc o hint hdual h i d pv sb rest
+
+
+/-! ## CELT frame header: what the encoder writes, the decoder reads back
+
+  Encoder model `Opus.CeltSymsEnc` (OpusModel/CeltSymsEnc.lean, tied call by call to the real `celt_encode_with_ec`);
+  decoder model `Opus.CeltSyms` (owned by C03); range coder `Opus.RangeCoder` and its round trip (C08).
+  `World`: one packet — a buffer, a legal list of range-coder calls `all`, no coder error.  `P0`: the calls made before
+  the CELT header (nothing for a CELT-only frame, the SILK layer for a hybrid frame).  `Part1 cfg s0`: the states the
+  encoder model goes through (silence flag, post-filter, transient flag, coarse energy) from `s0`. -/
+
+/-- **Header round trip, part 1** (silence flag, post-filter parameters, transient flag, intra flag, coarse energy), for
+    every configuration, every decision stream, every buffer content, every prefix `P0` and every continuation of the
+    packet: if the coder reports no error, the frame is not silent, the final packet length `len` is the size the
+    encoder budgeted with or at least two bytes beyond what the header has used (what the VBR code guarantees:
+    `min_allowed`), the packet is not already full (`tell < 8·len`) and — when the post-filter is on — its tapset
+    symbol fits (`nbAvailableBytes > 12·C`), then C03's `readFlags` and `coarseEnergy` run on the finished packet return
+    exactly the encoder's decisions — with each coarse-energy value as the written symbol means it (after the budget
+    clamps and the Laplace clamp) — and stop in lock-step with the encoder (same `rng`, `ec_tell`, `ec_tell_frac`).
+    The content is that every `tell`-based budget test takes the same branch on both sides, including the tests the
+    decoder makes with a stale `tell`. -/
+theorem celt_header_roundtrip_part1 (w : OpusProofs.CeltHdr.World) (P0 : List Opus.RangeCoder.Op)
+    (cfg : Opus.CeltSymsEnc.EncCfg) (s0 : Opus.CeltSymsEnc.St) (hs0 : s0.ops = []) (he0 : s0.e = w.encAt P0)
+    (p : OpusProofs.CeltHdr.Part1 cfg s0)
+    (hp : w.IsPrefix (P0 ++ p.s4.ops)) (hLM : cfg.LM < 4) (hlen : w.len ≤ p.size1)
+    (hmargin : w.len = p.size1 ∨
+      Opus.RangeCoder.tell (w.encAt (P0 ++ p.s4.ops)) + 16 ≤ ((w.len * 8 : Nat) : Int))
+    (hroom : Opus.RangeCoder.tell s0.e < ((w.len * 8 : Nat) : Int))
+    (htap : p.pf.on ≠ 0 → ∀ s' d', OpusProofs.CeltHdr.Here w P0 s' d' → OpusProofs.CeltHdr.Ext s' p.s2 →
+      Opus.RangeCoder.tell s'.e + 2 ≤ ((w.len * 8 : Nat) : Int)) :
+    ∃ (pfD : Opus.CeltSyms.PostFilter) (c5 : Opus.RangeCoder.Dec) (tr : List Opus.CeltSyms.CEv)
+      (c6 : Opus.RangeCoder.Dec) (tr' : List Opus.CeltSyms.CEv),
+      Opus.CeltSyms.readFlags ⟨cfg.start, cfg.end_, cfg.C, cfg.LM⟩ ((w.len * 8 : Nat) : Int) (w.decAt P0) =
+        ((0, pfD, p.isT, p.intra), c5, tr) ∧
+      pfD.on = p.pf.on ∧ pfD.octave = p.pf.octave ∧ pfD.pitch = p.pf.pitch ∧ pfD.qg = p.pf.qg ∧ pfD.tapset = p.pf.tapset ∧
+      Opus.CeltSyms.coarseEnergy ⟨cfg.start, cfg.end_, cfg.C, cfg.LM⟩ p.intra c5 = .ok (p.qds, c6, tr') ∧
+      OpusProofs.CeltHdr.Here w P0 p.s4 c6 :=
+  OpusProofs.CeltHdr.part1_roundtrip w P0 cfg s0 hs0 he0 p hp hLM hlen hmargin hroom htap
 
 end OpusProps.C17
